@@ -287,6 +287,8 @@ pub enum Place {
 pub struct Gen {
     pub rng: StdRng,
     pub next_id: usize,
+    last_divisor: Option<u64>,
+    pub iter_hint: usize,
 }
 
 struct MemPlan {
@@ -300,7 +302,7 @@ struct MemPlan {
 
 impl Gen {
     pub fn new(seed: u64) -> Self {
-        Gen { rng: StdRng::seed_from_u64(seed), next_id: 0 }
+        Gen { rng: StdRng::seed_from_u64(seed), next_id: 0, last_divisor: None, iter_hint: usize::MAX }
     }
 
     fn pick<T: Copy>(&mut self, v: &[T]) -> T {
@@ -652,6 +654,17 @@ impl Gen {
                 }
             }
         }
+        if matches!(m, Mnemonic::Div | Mnemonic::Idiv) && instr.op0_kind() == OpKind::Register {
+            // register divisor: use the one the dividend was built for, unless the register is part of the dividend
+            if let (Some(d), Some(ix)) = (self.last_divisor.take(), gpr_index(instr.op0_register().full_register())) {
+                let r = instr.op0_register();
+                if ix != 0 && ix != 3 && !matches!(r, Register::AH | Register::BH | Register::CH | Register::DH) {
+                    let m64 = if r.size() == 8 { u64::MAX } else { (1u64 << (r.size() * 8)) - 1 };
+                    pre.regs[ix] = (pre.regs[ix] & !m64) | (d & m64);
+                }
+            }
+        }
+        self.last_divisor = None;
         if matches!(m, Mnemonic::Imul | Mnemonic::Mul) && self.rng.gen_bool(0.6) {
             self.mul_special(m, &instr, &mut pre, target, mem_w);
         }
@@ -705,15 +718,16 @@ impl Gen {
                 Code::Div_rm32 | Code::Idiv_rm32 => 32,
                 _ => 64,
             };
-            if self.rng.gen_bool(0.75) {
+            if self.iter_hint < 8 || self.rng.gen_bool(0.75) {
                 let signed = m == Mnemonic::Idiv;
                 let mask: u128 = if w == 64 { u64::MAX as u128 } else { (1u128 << w) - 1 };
                 let mut d = (biased_u64(&mut self.rng) as u128) & mask;
+                self.last_divisor = None;
                 if self.rng.gen_bool(0.08) {
                     d = 0;
                 }
                 let half: i128 = 1i128 << (w - 1);
-                let (n_lo, n_hi): (u128, u128);
+                let (mut n_lo, mut n_hi): (u128, u128);
                 if !signed {
                     let q: u128 = self.pick(&[0u128, 1, mask, mask - 1, mask + 1, mask + 2, (mask >> 1), (mask >> 1) + 1]);
                     let r: u128 = if d > 1 { (biased_u64(&mut self.rng) as u128) % d } else { 0 };
@@ -734,6 +748,26 @@ impl Gen {
                     n_lo = nu & mask;
                     n_hi = (nu >> w) & mask;
                 }
+                // extreme dividends: most negative / largest 2w-bit values with divisors -1, 1, 2.  The first cases of every
+                // form walk through the list deterministically, later ones pick at random.
+                let top = 1u128 << (w - 1);
+                let extremes: [(u128, u128, u128); 8] = [
+                    (top, 0, mask),            // MIN / -1   (quotient 2^(2w-1): does not fit)
+                    (top, 0, 1),               // MIN / 1
+                    (top, 1, mask),            // (MIN+1) / -1
+                    (top - 1, mask, 1),        // MAX / 1
+                    (top - 1, mask, mask),     // MAX / -1
+                    (mask, top, mask),         // -2^(w-1) / -1  (quotient 2^(w-1): does not fit)
+                    (mask, top, 1),            // -2^(w-1) / 1   (fits exactly)
+                    (0, top - 1, mask),        // (2^(w-1)-1) / -1
+                ];
+                if self.iter_hint < extremes.len() || self.rng.gen_bool(0.08) {
+                    let k = if self.iter_hint < extremes.len() { self.iter_hint } else { self.rng.gen_range(0..extremes.len()) };
+                    n_hi = extremes[k].0;
+                    n_lo = extremes[k].1;
+                    d = extremes[k].2;
+                }
+                self.last_divisor = Some(d as u64);
                 // place divisor
                 if has_mem {
                     let mut b = (d as u64).to_le_bytes().to_vec();
@@ -1141,6 +1175,8 @@ pub fn gen_family(g: &mut Gen, family: &str, per_form: usize, forms: &std::colle
             continue;
         }
         for n in 0..per_form {
+            // the fault family walks through class-specific extreme operands first (see memory_special)
+            g.iter_hint = if family == "fault" { n / 2 } else { usize::MAX };
             let pad = g.rng.gen_range(0..4usize);
             let pad = match code.op_code().op_kind(0) {
                 K::br64_1 => pad % 2,
